@@ -14,6 +14,7 @@ once) -- it holds for every time-stamp assignment, i.e. every interleaving, and 
              to the first end marker, then joins
 TERMINATION ("and then terminates") is a liveness claim and is NOT decided by this technique; a bounded run stands in.
 """
+from contracts import findings_natives as KF
 from contracts.common import Item, mk_resource, mk_package2, expect_no_raise_or_same, _b
 from contracts.streams import calls, effect_names
 
@@ -367,4 +368,5 @@ ITEMS = [
     Item('fetcher', sym_fetcher, [], PZ + '::fetcher'),
     Item('fork', sym_fork, [('runs', nat_parallelize)], PZ + '::fork'),
     Item('composition', sym_composition, [], PZ + '::fork'),
+    Item('recorded-findings', None, [('bounded', KF.nat_findings_c18), ('bounded-1', KF.nat_findings_parallelize_errors)], 'dataflows/processors/parallelize.py::fork'),
 ]
